@@ -25,17 +25,106 @@ def core_stream(filters=None, nontrivial=(), quick=360, thorough=7200, what="", 
 
 SMALL_SCOPE = [(fl, pol, lim, 5) for fl in ("global", "thread", "async") for pol in ALL_POLICIES for lim in (1, 2)]
 
+def macro_stream(nontrivial=(), quick=240, thorough=4000, what=""):
+    return {
+        "kind": "macro",
+        "what": what or "L2: real #[cache]/#[cache_async] generated functions (corpus of 48 attribute x signature x return-type combinations), real invalidation and statistics registries, real threads for thread scope, virtual time through the verif hooks vs Cachelito.sysStep; outputs, predicate logs, statistics and the dump of every cache instance compared per operation",
+        "episodes": {"quick": quick, "thorough": thorough},
+        "ops": {"quick": 40, "thorough": 80},
+        "nontrivial": list(nontrivial),
+    }
+
+def lines_stream(bin_, mode, args, quick, thorough, what, nontrivial_re="."):
+    return {"kind": "lines", "bin": bin_, "mode": mode, "args": args, "n": {"quick": quick, "thorough": thorough},
+            "what": what, "nontrivial_re": nontrivial_re}
+
+MODEL_NOTE = ("Theorems are about the hand-written Lean model; its agreement with the Rust code is tested per step "
+              "(full state) on generated histories, not proved. HashMap/DashMap/VecDeque are lists, usize overflow is not modelled.")
+TECH = "Lean 4 theorem (induction over operation histories / invariants) + per-step model-vs-implementation correspondence + property monitors on the real code"
+
 PROPS = {
+    "C01": {
+        "lean_modules": ["Cachelito.Props.C01"],
+        "streams": [core_stream(nontrivial=["hit", "re-store"]), macro_stream(nontrivial=["hit"])],
+        "monitors": ["C01"],
+        "rule": "L1: generated engine histories; non-trivial = a lookup that returned a value or a store that replaced one. L2: generated call histories on real generated functions; non-trivial = a call served from the cache; distinct by (config, pre-state, op) resp. (op, observation)",
+        "level_text": "Lean theorems: in every history of every flavour/policy/configuration a lookup returns exactly the value of the latest store under that key (never a value stored under another key, never a replaced one); the store always holds the latest value per key. Tied to the code by per-step full-state comparison (engines) and per-call comparison of returned values, traces and cache dumps (generated functions); monitors: returned value = value of the latest store (L1), = the deterministic body's value for the arguments (L2).",
+        "level_note": MODEL_NOTE + " The wrapper-level corollary uses key injectivity (C02) as a separate theorem.",
+        "technique": TECH, "design_ref": "DESIGN.md §7 C01",
+        "assumptions": ["deterministic body", "sequential use (interleavings: C18)"],
+    },
     "C04": {
         "lean_modules": ["Cachelito.Props.C04"],
         "streams": [core_stream(nontrivial=["eviction", "expiry"], enumerate_=SMALL_SCOPE)],
         "monitors": ["C04"],
         "rule": "generated episodes (config product flavour x policy x limit x max_memory x ttl x fw, key alphabet limit+2) run on the real engines; a step is non-trivial when it evicts or purges an entry; distinct = distinct (config, pre-state, operation)",
         "level_text": "Machine-checked Lean theorems: the store/queue bookkeeping invariant holds in every reachable state, |store| <= limit after every operation of every history, and a plain store leaves exactly min(limit, held + [key new]) entries (one victim per overflow, none otherwise), for all flavours, policies, score algebras, sizes and random draws. The model is tied to the code by per-step full-state comparison on generated and (thorough) exhaustively enumerated histories.",
-        "level_note": "Theorems are about the Lean model (Core.lean); its agreement with the Rust code is tested per step, not proved. HashMap/DashMap/VecDeque are modelled as lists; usize overflow is not modelled.",
-        "technique": "Lean 4 invariant proof by induction over operations + per-step model/implementation correspondence",
-        "design_ref": "DESIGN.md §7 C04",
+        "level_note": MODEL_NOTE,
+        "technique": TECH, "design_ref": "DESIGN.md §7 C04",
         "assumptions": ["limit >= 1", "sequential use (concurrency is C18)"],
+    },
+    "C05": {
+        "lean_modules": ["Cachelito.Props.C05", "Cachelito.Props.C05a"],
+        "streams": [core_stream(nontrivial=["memory-store"], what="L1 restricted to nothing: all flavours/policies, memory-aware stores with sizes around max_memory"),
+                    lines_stream("mem_diff", "mem", ["{seed}", "{n}"], 60, 600,
+                                 "estimator: random values of 85 Rust types (String/Vec with chosen capacities, nested Option/Result/tuple/Box/Arc/Rc, CacheEntry) through the REAL estimate_memory() vs MemEst.estimate; independent footprint walk", r"\|")],
+        "monitors": ["C05"],
+        "rule": "L1: memory-aware stores on the real engines with value sizes around max_memory (exact fit, one byte over, oversize); non-trivial = a memory-aware store with max_memory set. Estimator: one random value per line, distinct lines counted",
+        "level_text": "Lean theorems: (engine) after every memory-aware store total size <= max_memory for every history, an oversize value changes nothing but its own key, the memory loop removes exactly the shortest prefix of the policy's victim sequence after which the total fits (nothing when it already fits) and always terminates; (estimator) estimate = inline + owned heap (+ borrowed bytes for &str/&[T]), never below the inline size. Tied to the code per step (engines, full state) and per value (estimator).",
+        "level_note": MODEL_NOTE + " Rust's size_of values are parameters reported by the harness.",
+        "technique": TECH, "design_ref": "DESIGN.md §7 C05",
+        "assumptions": ["all stores of a history go through insert_with_memory (as the macros generate when max_memory is set)", "size_of table as reported by rustc"],
+    },
+    "C06": {
+        "lean_modules": ["Cachelito.Props.C06"],
+        "streams": [core_stream(nontrivial=["expiry", "ttl-boundary"])],
+        "monitors": ["C06"],
+        "rule": "generated episodes with time steps around the TTL boundary (T-0.1s, T, T+0.1s, whole seconds for async); non-trivial = a lookup of an entry within one second of the boundary or an expiry purge",
+        "level_text": "Lean theorems: with ttl = T a lookup of an entry of age >= T s returns nothing, counts a miss and removes the key from store and queue (so it no longer occupies capacity: a following store into the previously full cache evicts nothing); a younger entry (sync: age < T; async: real age <= T-1 s, exact characterisation by the whole-second stamps) is served; at history level a served value always has real age < T. All flavours, policies, limits.",
+        "level_note": MODEL_NOTE + " Virtual time: the harness re-stamps entry birth times; Instant is assumed monotone.",
+        "technique": TECH, "design_ref": "DESIGN.md §7 C06",
+        "assumptions": ["monotone clock"],
+    },
+    "C07": {
+        "lean_modules": ["Cachelito.Props.C07"],
+        "streams": [core_stream(filters=[["policy=fifo"], ["policy=lru"]], nontrivial=["eviction"])],
+        "monitors": ["C07"],
+        "rule": "FIFO and LRU episodes on all three engines under entry limits 1..4, memory limits and both; non-trivial = a store that evicted",
+        "level_text": "Lean theorems with ghost stamps derived from the history: the queue is sorted by last-store time (FIFO) / last-use time (LRU) in every reachable state, every eviction pops the queue head, hence every key removed by a store (entry limit or memory loop, several victims) is older than every surviving key; reads never change FIFO order. All flavours.",
+        "level_note": MODEL_NOTE,
+        "technique": TECH, "design_ref": "DESIGN.md §7 C07",
+        "assumptions": [],
+    },
+    "C08": {
+        "lean_modules": ["Cachelito.Props.C08"],
+        "streams": [core_stream(filters=[["policy=lfu"], ["policy=arc"], ["policy=tlru"]], nontrivial=["eviction"], quick=420, thorough=9000)],
+        "monitors": ["C08"],
+        "rule": "LFU / ARC / TLRU episodes on all three engines, limits 1..4, ttl none/1..3, frequency_weight none/0.1/0.3/1/1.5/3, entry and memory pressure; non-trivial = a store that evicted; the driver mirrors the f64 score exactly",
+        "level_text": "Lean theorems: the victim scan returns the FIRST minimiser of the policy's score among stored queue keys for any strict-weak-order comparison (LFU: hits; ARC: hits x rank; TLRU: any scorer), every eviction of a store (limit step and memory loop) is such a victim; LFU victims have the fewest successful lookups (hit counters equal the history's count); async ARC/TLRU: among equally popular entries the least recently used goes first; sync engines: the victim is the first entry with a zero factor, so weight form and rank orientation are unobservable there; TLRU without ttl and weight coincides with ARC on every history.",
+        "level_note": MODEL_NOTE + " TLRU theorems assume the f64 comparison is a strict weak order on the scores produced (no NaN) and positive weights; the driver's Float scorer mirrors libm pow.",
+        "technique": TECH, "design_ref": "DESIGN.md §7 C08",
+        "assumptions": ["frequency_weight > 0", "scores below f64::MAX / hit counters below u64::MAX"],
+    },
+    "C15": {
+        "lean_modules": ["Cachelito.Props.C15"],
+        "streams": [core_stream(nontrivial=["hit", "expiry"]), macro_stream(nontrivial=["stats-get", "stats-reset", "hit"])],
+        "monitors": ["C15"],
+        "rule": "L1: counters in every state dump; L2: stats_registry::get(name) after every call, get/reset by name incl. unknown names; non-trivial = hit, expiry-as-miss, stats query or reset",
+        "level_text": "Lean theorems (sequential): every lookup bumps exactly one counter, hits iff it returned a value (an expired entry is a miss), nothing else touches the counters, hits+misses = number of lookups for every history. Tied to the code by the counters in every L1 state dump and by the registry's per-name statistics after every L2 call. The concurrent part (atomic counters under any schedule) is not yet claimed here.",
+        "level_note": MODEL_NOTE + " AtomicU64::fetch_add is assumed atomic.",
+        "technique": TECH, "design_ref": "DESIGN.md §7 C15",
+        "assumptions": ["distinct cache names"],
+    },
+    "C16": {
+        "lean_modules": ["Cachelito.Props.C16", "Cachelito.Props.C05a"],
+        "streams": [core_stream(nontrivial=["eviction", "expiry", "oversize"], quick=540, thorough=9000,
+                                what="L1 over the full product flavour x policy x limit x ttl x max_memory x fw; every operation under catch_unwind, debug assertions and overflow checks on")],
+        "monitors": ["C16"],
+        "rule": "every operation of every generated episode runs under catch_unwind with overflow checks on; non-trivial = a step that evicts, purges or takes the oversize path (the paths that used to panic)",
+        "level_text": "Lean theorems for each panic-capable primitive: random index always in range and guarded on the empty queue, scan positions below the queue length, every eviction on a non-empty consistent cache finds a victim, the thread-local RefCell borrow regions of every operation/policy/branch never conflict (and the pre-fix code's did), built-in estimators never underflow, eviction loops terminate. Tied to the code by running the full configuration product under catch_unwind.",
+        "level_note": MODEL_NOTE + " The RefCell borrow traces are a hand transcription tied to the code only through observed panics. Not modelled: allocation failure, usize overflow of sums, panics in user code (bodies, predicates, user estimators reporting less than size_of).",
+        "technique": TECH, "design_ref": "DESIGN.md §7 C16",
+        "assumptions": ["limit >= 1", "user code does not panic"],
     },
 }
 
